@@ -1,187 +1,46 @@
-(* C08 — generated IBANs carry exactly the supplied components, padded, never altered. *)
+(* C08 — generated IBANs carry exactly the supplied components, padded, never altered.
+   Statements only; the proofs are Proofs/GenerateFacts.v (instantiation on the regenerated tables),
+   Proofs/PlaceFacts.v (list surgery over the placement loop) and Proofs/ComputeShape.v. *)
 From Coq Require Import Lia ZArith List Bool.
-From Schwifty Require Import Lib.Base Lib.Lit Model.Clean Model.Data Model.Iban Model.Bban Model.Generate
-  Model.National Model.Algorithms Model.Germany.
-From Schwifty Require Import Spec.Iso13616 Spec.RegistrySpec.
-From Schwifty Require Import Proofs.CleanFacts Proofs.NumFacts Proofs.IbanFacts Proofs.IbanTheorems Proofs.DecompFacts Proofs.NationalFacts
-  Proofs.PlaceFacts Proofs.ComputeShape Proofs.GenObligations.
-From Schwifty Require Import Gen.Env Gen.IbanData Gen.IbanCfg Gen.ChecksumCfg Gen.GermanyTbl.
+From Schwifty Require Import Lib.Base Lib.Lit Model.Clean Model.Data Model.Iban Model.Bban Model.Generate.
+From Schwifty Require Import Spec.Iso13616 Proofs.CleanFacts Proofs.PlaceFacts Proofs.GenerateFacts.
+From Schwifty Require Import Gen.Env Gen.IbanData Gen.IbanCfg.
 Import ListNotations.
-
-Definition the_components := ic_components the_iban_cfg.
-Definition the_german := german_class nd_runs german_table account_code_length.
-Definition the_algos := the_find_algo the_env the_iban_cfg nd_runs registered the_german.
-Definition rng (r : row) := fc_rng the_components r.
-Definition width (r : row) (k : text) : Z := range_length (rng r k).
-Definition generate (national : text -> text -> outcome bool) :=
-  iban_generate the_env the_iban_cfg the_table national the_components the_algos.
-Definition field (r : row) (k : text) (s : text) : text :=
-  let b := iban_bban the_env s in get_slice b (fst (rng r k)) (Some (snd (rng r k))).
-Definition padded (r : row) (k v : text) : text := zfill (clean the_env v) (width r k).
-
-(* obligations on the regenerated data: every country's position table lays the components out inside the BBAN
-   without overlap (under the names the code uses), and "0" survives cleaning *)
-Lemma C08_layout_obl : forallb (fc_layout_ok the_components) the_table = true.
-Proof. vm_cast_no_check (eq_refl true). Qed.
-Lemma C08_zero_obl : clean_char the_env c0 = true.
-Proof. vm_cast_no_check (eq_refl true). Qed.
-
-(* what the placement needs of the country's check-digit algorithm: nothing if it computes none or the country has
-   no check-digit field; otherwise clean text of the field's width *)
-Definition checksum_shape (cc : text) (r : row) : Prop :=
-  forall vals K, compute_national the_algos cc vals = Ok K ->
-    K = [] \/ range_is_empty (rng r k_national) = true
-    \/ (cleaned the_env K = true /\ len K = width r k_national).
-
-Lemma shape_no_algorithm cc r : the_algos cc k_default = None -> checksum_shape cc r.
-Proof. intros H vals K HK. unfold compute_national in HK. rewrite H in HK. inversion HK. left; reflexivity. Qed.
-
-Lemma shape_no_field cc r : range_is_empty (rng r k_national) = true -> checksum_shape cc r.
-Proof. intros H vals K _. right; left; exact H. Qed.
-
-Lemma layout_of cc r : find_row the_table cc = Some r -> fc_layout_ok the_components r = true.
-Proof.
-  intro Er. apply find_row_in in Er as [Hin _]. pose proof C08_layout_obl as O. rewrite forallb_forall in O. exact (O r Hin).
-Qed.
-
-Lemma only_three bank account branch k :
-  text_eqb k k_bank = false -> text_eqb k k_branch = false -> text_eqb k k_account = false ->
-  get_val k (generate_values bank account branch) = [].
-Proof. intros H1 H2 H3. unfold get_val, generate_values. cbn [assoc]. rewrite H1, H2, H3. reflexivity. Qed.
-
-Lemma values_bank bank account branch : get_val k_bank (generate_values bank account branch) = bank.
-Proof. reflexivity. Qed.
-Lemma values_branch bank account branch : get_val k_branch (generate_values bank account branch) = branch.
-Proof. reflexivity. Qed.
-Lemma values_account bank account branch : get_val k_account (generate_values bank account branch) = account.
-Proof. reflexivity. Qed.
-
-(* a generated IBAN is the country code, two check digits and the BBAN built from the components; it is ISO-valid *)
-Lemma generate_parts national cc bank account branch s :
-  generate national cc bank account branch = Ok s ->
-  iso_ok the_table s = true /\
-  exists b, from_components the_env the_components the_table the_algos cc (generate_values bank account branch) = Ok b
-    /\ (cleaned the_env b = true -> iban_bban the_env s = b).
-Proof.
-  intro H. unfold generate, iban_generate in H.
-  destruct (from_components the_env the_components the_table the_algos cc (generate_values bank account branch))
-    as [b|x|x] eqn:Eb; try discriminate. cbn [bind] in H.
-  unfold iban_from_bban in H. destruct (iso7064_compute the_iban_cfg [b; cc]) as [d|x|x] eqn:Ed; try discriminate.
-  cbn [bind] in H.
-  assert (Hiso : iso_ok the_table (clean the_env (cc ++ d ++ b)) = true).
-  { apply (new_iff the_env the_iban_cfg the_table national env_obl env_alpha_obl cfg_obl table_obl). exists s. exact H. }
-  pose proof (new_result the_env the_iban_cfg the_table national env_obl env_alpha_obl cfg_obl table_obl _ _ H) as Es.
-  split; [rewrite Es; exact Hiso|]. exists b. split; [reflexivity|]. intro Hcl.
-  destruct (find_row the_table cc) as [r|] eqn:Er;
-    [|rewrite (fc_unknown_country _ _ _ _ _ _ Er) in Eb; discriminate].
-  destruct (row_facts the_iban_cfg the_table table_obl cc r Er) as (c1 & c2 & kds & Ecc & U1 & U2 & _).
-  unfold iso7064_compute in Ed. destruct (Iban.numerify the_iban_cfg (concat_text [b; cc])) as [n|x|x]; try discriminate.
-  cbn [bind] in Ed. pose proof (check_value_range n) as Hr. rewrite two_digits_fmt in Ed by lia.
-  destruct (two_digits_digits (98 - (n * 100) mod 97)%Z ltac:(lia)) as (x1 & x2 & Hx & D1 & D2 & _).
-  rewrite Hx in Ed. inversion Ed as [Ed']. subst d cc. clear Ed.
-  assert (Hhead : cleaned the_env ([c1; c2] ++ [x1; x2]) = true).
-  { apply (alpha_cleaned the_env env_alpha_obl). cbn [app forallb]. unfold in_alpha. rewrite U1, U2, D1, D2, !orb_true_r. reflexivity. }
-  assert (Hall : cleaned the_env ([c1; c2] ++ [x1; x2] ++ b) = true).
-  { rewrite app_assoc, cleaned_app, Hhead, Hcl. reflexivity. }
-  rewrite (cleaned_fix the_env _ Hall) in Es. subst s. cbn [app].
-  unfold iban_bban. rewrite slice_bban. apply (cleaned_fix the_env). exact Hcl.
-Qed.
-
-(* a bank code whose padded form has the combined bank-plus-branch width (and the country has a branch field) *)
-Definition combined (r : row) (bank : text) : Prop :=
-  width r k_branch <> 0%Z /\ len (padded r k_bank bank) = (width r k_bank + width r k_branch)%Z.
-
-Lemma split_iff cc r bank account branch :
-  find_row the_table cc = Some r ->
-  fc_split the_components r (fc_comps0 the_env the_components r (generate_values bank account branch)) = true
-  <-> combined r bank.
-Proof.
-  intro Er.
-  exact (split_spec the_env the_components the_table the_algos env_obl C08_zero_obl cc r
-           (generate_values bank account branch) Er (layout_of cc r Er) (only_three bank account branch)).
-Qed.
 
 Theorem C08_valid : forall national cc bank account branch s,
   generate national cc bank account branch = Ok s -> iso_ok the_table s = true.
-Proof. intros national cc bank account branch s H. exact (proj1 (generate_parts national cc bank account branch s H)). Qed.
+Proof. exact gen_valid. Qed.
 
-(* each supplied component - cleaned, zero-padded to its field width - is the BBAN substring at the published position *)
 Theorem C08_placed : forall national cc r bank account branch s,
   find_row the_table cc = Some r -> checksum_shape cc r ->
   generate national cc bank account branch = Ok s -> ~ combined r bank ->
   field r k_bank s = padded r k_bank bank /\ len (padded r k_bank bank) = width r k_bank
   /\ field r k_branch s = padded r k_branch branch /\ len (padded r k_branch branch) = width r k_branch
   /\ field r k_account s = padded r k_account account /\ len (padded r k_account account) = width r k_account.
-Proof.
-  intros national cc r bank account branch s Er Hshape H Hnc.
-  destruct (generate_parts national cc bank account branch s H) as (_ & b & Hb & Hbban).
-  set (values := generate_values bank account branch) in *.
-  assert (Hs : fc_split the_components r (fc_comps0 the_env the_components r values) = false).
-  { destruct (fc_split _ _ _) eqn:E; [|reflexivity]. exfalso. apply Hnc. apply (split_iff cc r bank account branch Er). exact E. }
-  pose proof (fun k => fc_placed the_env the_components the_table the_algos env_obl C08_zero_obl cc r values Er
-                (layout_of cc r Er) (only_three bank account branch) b k Hb (fun K => Hshape _ K) Hs) as P.
-  destruct (fc_result the_env the_components the_table the_algos env_obl C08_zero_obl cc r values Er
-              (layout_of cc r Er) (only_three bank account branch) b Hb (fun K => Hshape _ K)) as (_ & _ & _ & Hcl & _).
-  unfold field. rewrite (Hbban Hcl).
-  destruct (P k_bank (or_introl eq_refl)) as [B1 B2].
-  destruct (P k_branch (or_intror (or_introl eq_refl))) as [R1 R2].
-  destruct (P k_account (or_intror (or_intror eq_refl))) as [A1 A2].
-  repeat split; assumption.
-Qed.
+Proof. exact gen_placed. Qed.
 
-(* a bank code of combined width is split across the bank and branch fields (no separate branch code then) *)
 Theorem C08_placed_combined : forall national cc r bank account branch s,
   find_row the_table cc = Some r -> checksum_shape cc r ->
   generate national cc bank account branch = Ok s -> combined r bank ->
   field r k_bank s ++ field r k_branch s = padded r k_bank bank
   /\ field r k_account s = padded r k_account account /\ branch = [].
-Proof.
-  intros national cc r bank account branch s Er Hshape H Hc.
-  destruct (generate_parts national cc bank account branch s H) as (_ & b & Hb & Hbban).
-  set (values := generate_values bank account branch) in *.
-  assert (Hs : fc_split the_components r (fc_comps0 the_env the_components r values) = true)
-    by (apply (split_iff cc r bank account branch Er); exact Hc).
-  destruct (fc_placed_split the_env the_components the_table the_algos env_obl C08_zero_obl cc r values Er
-              (layout_of cc r Er) (only_three bank account branch) b Hb (fun K => Hshape _ K) Hs) as (P1 & _ & P3 & P4).
-  destruct (fc_result the_env the_components the_table the_algos env_obl C08_zero_obl cc r values Er
-              (layout_of cc r Er) (only_three bank account branch) b Hb (fun K => Hshape _ K)) as (_ & _ & _ & Hcl & _).
-  unfold field. rewrite (Hbban Hcl). repeat split; assumption.
-Qed.
+Proof. exact gen_placed_combined. Qed.
 
-(* supplied characters are never dropped or changed: the padded value ends with the cleaned value *)
 Theorem C08_kept : forall r k v, exists pad, padded r k v = pad ++ clean the_env v \/
   (exists c rest, clean the_env v = c :: rest /\ padded r k v = c :: pad ++ rest).
-Proof.
-  intros r k v. unfold padded, zfill. destruct (Z.leb (width r k) (len (clean the_env v))).
-  - exists []. left. reflexivity.
-  - destruct (clean the_env v) as [|c rest]; [eexists; left; rewrite app_nil_r; reflexivity|].
-    destruct (N.eqb c cplus || N.eqb c cminus); eexists; [right; exists c, rest; split; reflexivity|left; reflexivity].
-Qed.
+Proof. exact gen_kept. Qed.
 
-(* the error class of an over-long component; unknown country; no published positions *)
 Theorem C08_long_bank : forall national cc r ps bank account branch,
   find_row the_table cc = Some r -> r_positions r = Some ps -> ~ combined r bank ->
   (width r k_bank < len (clean the_env bank))%Z ->
   generate national cc bank account branch = Err EInvalidBankCode.
-Proof.
-  intros national cc r ps bank account branch Er Hps Hnc Hlong. unfold generate, iban_generate.
-  rewrite (fc_bank_too_long the_env the_components the_table the_algos env_obl C08_zero_obl cc r
-             (generate_values bank account branch) Er (layout_of cc r Er) (only_three bank account branch) ps Hps);
-    [reflexivity| |exact Hlong].
-  destruct (fc_split _ _ _) eqn:E; [|reflexivity]. exfalso. apply Hnc. apply (split_iff cc r bank account branch Er). exact E.
-Qed.
+Proof. exact gen_long_bank. Qed.
 
 Theorem C08_long_branch : forall national cc r ps bank account branch,
   find_row the_table cc = Some r -> r_positions r = Some ps -> ~ combined r bank ->
   (len (clean the_env bank) <= width r k_bank)%Z -> (width r k_branch < len (clean the_env branch))%Z ->
   generate national cc bank account branch = Err EInvalidBranchCode.
-Proof.
-  intros national cc r ps bank account branch Er Hps Hnc Hfit Hlong. unfold generate, iban_generate.
-  rewrite (fc_branch_too_long the_env the_components the_table the_algos env_obl C08_zero_obl cc r
-             (generate_values bank account branch) Er (layout_of cc r Er) (only_three bank account branch) ps Hps);
-    [reflexivity| |exact Hfit|exact Hlong].
-  destruct (fc_split _ _ _) eqn:E; [|reflexivity]. exfalso. apply Hnc. apply (split_iff cc r bank account branch Er). exact E.
-Qed.
+Proof. exact gen_long_branch. Qed.
 
 Theorem C08_long_account : forall national cc r ps bank account branch,
   find_row the_table cc = Some r -> r_positions r = Some ps ->
@@ -189,87 +48,46 @@ Theorem C08_long_account : forall national cc r ps bank account branch,
   \/ (combined r bank /\ branch = []) ->
   (width r k_account < len (clean the_env account))%Z ->
   generate national cc bank account branch = Err EInvalidAccountCode.
-Proof.
-  intros national cc r ps bank account branch Er Hps Hcase Hlong. unfold generate, iban_generate.
-  rewrite (fc_account_too_long the_env the_components the_table the_algos env_obl C08_zero_obl cc r
-             (generate_values bank account branch) Er (layout_of cc r Er) (only_three bank account branch) ps Hps);
-    [reflexivity| |exact Hlong].
-  destruct Hcase as [(Hnc & F1 & F2)|(Hc & Hb)].
-  - left. split; [|split; assumption].
-    destruct (fc_split _ _ _) eqn:E; [|reflexivity]. exfalso. apply Hnc. apply (split_iff cc r bank account branch Er). exact E.
-  - right. split; [apply (split_iff cc r bank account branch Er); exact Hc|exact Hb].
-Qed.
+Proof. exact gen_long_account. Qed.
 
 Theorem C08_unknown_country : forall national cc bank account branch,
   find_row the_table cc = None -> generate national cc bank account branch = Err EInvalidCountryCode.
-Proof.
-  intros national cc bank account branch H. unfold generate, iban_generate.
-  rewrite (fc_unknown_country _ _ _ _ _ _ H). reflexivity.
-Qed.
+Proof. exact gen_unknown_country. Qed.
 
 Theorem C08_no_positions : forall national cc r bank account branch,
   find_row the_table cc = Some r -> r_positions r = None -> generate national cc bank account branch = Err ESchwifty.
-Proof.
-  intros national cc r bank account branch H Hp. unfold generate, iban_generate.
-  rewrite (fc_no_positions _ _ _ _ _ _ _ H Hp). reflexivity.
-Qed.
-
-
-(* ---- the check-digit algorithms all return clean text of their field's width -------------------------------- *)
-Definition shape_row_ok (r : row) : bool :=
-  match assoc (r_cc r ++ [58%N] ++ k_default) registered with
-  | None => true
-  | Some (cls, acc) =>
-    match national_class the_env nd_runs (ic_alphabet the_iban_cfg) cls acc with
-    | None => false
-    | Some _ =>
-      range_is_empty (rng r k_national)
-      || match class_width cls with Some w => Z.eqb (width r k_national) (Z.of_nat w) | None => false end
-    end
-  end.
-Lemma C08_shape_obl : forallb shape_row_ok the_table = true.
-Proof. vm_cast_no_check (eq_refl true). Qed.
+Proof. exact gen_no_positions. Qed.
 
 Theorem C08_shape : forall cc r, find_row the_table cc = Some r -> checksum_shape cc r.
-Proof.
-  intros cc r Er vals K HK. apply find_row_in in Er as [Hin Ecc].
-  pose proof C08_shape_obl as O. rewrite forallb_forall in O. specialize (O r Hin). unfold shape_row_ok in O.
-  rewrite Ecc in O. unfold compute_national, the_algos, the_find_algo, Algorithms.find_algo in HK.
-  destruct (assoc (cc ++ [58%N] ++ k_default) registered) as [[cls acc]|]; [|left; inversion HK; reflexivity].
-  destruct (national_class the_env nd_runs (ic_alphabet the_iban_cfg) cls acc) as [al|] eqn:Ecls; [|discriminate].
-  destruct (national_class_shape the_env nd_runs (ic_alphabet the_iban_cfg) cls acc al _ K Ecls HK)
-    as [HK0|[(w & Hw & Hlen & Halpha)|Hnone]].
-  - left. exact HK0.
-  - rewrite Hw in O. apply orb_true_iff in O as [O|O]; [right; left; exact O|right; right].
-    apply Z.eqb_eq in O. split; [apply (alpha_cleaned the_env env_alpha_obl); exact Halpha|].
-    unfold len. rewrite Hlen. symmetry. exact O.
-  - rewrite Hnone in O. rewrite orb_false_r in O. right; left. exact O.
-Qed.
+Proof. exact gen_shape. Qed.
 
-(* unconditional forms *)
 Theorem C08_placed_all : forall national cc r bank account branch s,
   find_row the_table cc = Some r ->
   generate national cc bank account branch = Ok s -> ~ combined r bank ->
   field r k_bank s = padded r k_bank bank /\ len (padded r k_bank bank) = width r k_bank
   /\ field r k_branch s = padded r k_branch branch /\ len (padded r k_branch branch) = width r k_branch
   /\ field r k_account s = padded r k_account account /\ len (padded r k_account account) = width r k_account.
-Proof. intros national cc r bank account branch s Er. exact (C08_placed national cc r bank account branch s Er (C08_shape cc r Er)). Qed.
+Proof. exact gen_placed_all. Qed.
 
 Theorem C08_placed_combined_all : forall national cc r bank account branch s,
   find_row the_table cc = Some r ->
   generate national cc bank account branch = Ok s -> combined r bank ->
   field r k_bank s ++ field r k_branch s = padded r k_bank bank
   /\ field r k_account s = padded r k_account account /\ branch = [].
-Proof. intros national cc r bank account branch s Er. exact (C08_placed_combined national cc r bank account branch s Er (C08_shape cc r Er)). Qed.
+Proof. exact gen_placed_combined_all. Qed.
 
 Print Assumptions C08_valid.
-Print Assumptions C08_placed_all.
-Print Assumptions C08_placed_combined_all.
 Print Assumptions C08_placed.
 Print Assumptions C08_placed_combined.
+Print Assumptions C08_kept.
 Print Assumptions C08_long_bank.
 Print Assumptions C08_long_branch.
 Print Assumptions C08_long_account.
+Print Assumptions C08_unknown_country.
+Print Assumptions C08_no_positions.
+Print Assumptions C08_shape.
+Print Assumptions C08_placed_all.
+Print Assumptions C08_placed_combined_all.
 
 (* the hypotheses are met by ordinary calls *)
 From Coq Require Import String.
